@@ -938,7 +938,9 @@ class Dict(dict, base.Symbolic, pg_typing.CustomTyping):
     """
     proceed_with_standard_apply = True
     if self._value_spec:
-      if value_spec and not value_spec.is_compatible(self._value_spec):
+      # NOTE: a value spec can be falsy (e.g. `len(Tuple(Int())) == 0`).
+      if (value_spec is not None
+          and not value_spec.is_compatible(self._value_spec)):
         raise ValueError(
             utils.message_on_path(
                 f'Dict (spec={self._value_spec!r}) cannot be assigned to an '
